@@ -179,10 +179,10 @@ def classify_u256(repo):
     def has_loop(b):
         return any(b.dominates(h, u) for u in b.reachable() for h in b.succ()[u])
     roles = {
-        "sub": lambda b, ins, cs: ins == ["&mut " + U256, "&" + U256, "&" + U256] and {"lt", "add_with_carry", "sub_with_borrow"} <= cs and not has_loop(b),
+        "sub": lambda b, ins, cs: ins == ["&mut " + U256, "&" + U256, "&" + U256] and {"add_with_carry", "sub_with_borrow"} <= cs and not has_loop(b),
         "neg": lambda b, ins, cs: ins == ["&mut " + U256, "&" + U256] and {"is_zero", "sub_with_borrow"} <= cs and "add_with_carry" not in cs and not has_loop(b),
-        "div2": lambda b, ins, cs: ins == ["&mut " + U256, "&" + U256] and {"is_odd", "add_with_carry", "div2"} <= cs and not has_loop(b),
-        "invert": lambda b, ins, cs: ins == ["&mut " + U256, "&" + U256, "&" + U256] and has_loop(b) and {"is_one", "is_even"} <= cs,
+        "div2": lambda b, ins, cs: ins == ["&mut " + U256, "&" + U256] and ({"is_odd", "is_even"} & cs) and {"add_with_carry", "div2"} <= cs and not has_loop(b),
+        "invert": lambda b, ins, cs: ins == ["&mut " + U256, "&" + U256, "&" + U256] and has_loop(b) and ({"is_even", "is_odd"} & cs) and ({"div2"} & cs or {"is_one"} & cs),
     }
     for role, (k, needs, reason) in CLOSED_II.items():
         cands = [b for b in methods if b.rec["path"] not in closed and roles[role](b, b.rec.get("inputs") or [], callee_names(b))]
@@ -551,8 +551,14 @@ def rule_guard(repo):
             return "?"
         o = flip(asg[a]) if rev else asg[a]
         return bool(carry) or o != "L"
+    def eff_prim(res, asg, tb):
+        # what *self ends up as: untouched, or the result of one subtraction of the modulus (in place, or tried on a copy and kept)
+        v = strip(paths.path_value(prim, tb, res.blocks, ("deref", 1)))
+        if v == ("init", ("deref", 1)):
+            return False
+        return any(x[0] == "mutcall" and x[1].name == "sub_with_borrow" for x in walk(v))
     run(prim, "conditional subtraction: subtract ⇔ carry ∨ self ≥ modulus", spec_prim,
-        "C06:guard:%s" % prim.rec["path"], lambda res, asg, tb: bool(res.called(lambda f: f.name == "sub_with_borrow")))
+        "C06:guard:%s" % prim.rec["path"], eff_prim)
 
     # 2. modular subtraction (found by role): add the modulus iff self < other
     role_of = {p: i.get("role") for p, i in closed.items()}
